@@ -122,7 +122,7 @@ func (e *eccKeyAgreement) processClientKeyExchange(hs *serverHandshakeState, ckx
 	}
 	config := hs.c.config
 
-	if len(ckx.ciphertext) == 0 {
+	if len(ckx.ciphertext) < 2 {
 		return nil, errClientKeyExchange
 	}
 
@@ -134,7 +134,7 @@ func (e *eccKeyAgreement) processClientKeyExchange(hs *serverHandshakeState, ckx
 	}
 
 	cipher := ckx.ciphertext[2:]
-	if cipher[0] != 0x30 {
+	if len(cipher) < 3 || cipher[0] != 0x30 {
 		return nil, errors.New("dtlcp: bad client key exchange ciphertext format")
 	}
 
@@ -211,7 +211,10 @@ func (e *eccKeyAgreement) generateClientKeyExchange(hs *clientHandshakeState) ([
 		return nil, nil, err
 	}
 
-	pub := encCert.PublicKey.(*ecdsa.PublicKey)
+	pub, ok := encCert.PublicKey.(*ecdsa.PublicKey)
+	if !ok {
+		return nil, nil, errors.New("dtlcp: server encrypt certificate key type not sm2")
+	}
 	encrypted, err := sm2.Encrypt(config.rand(), pub, preMasterSecret, sm2.ASN1EncrypterOpts)
 	if err != nil {
 		return nil, nil, err
@@ -461,6 +464,9 @@ func (ka *sm2ECDHEKeyAgreement) processServerKeyExchange(hs *clientHandshakeStat
 
 	// 验证签名值，认证对端身份
 	signedParams := skx.key[4+publicLen:]
+	if len(signedParams) < 2 {
+		return errServerKeyExchange
+	}
 	sigLen := int(signedParams[0]) << 8
 	sigLen |= int(signedParams[1])
 	if sigLen+2 > len(signedParams) {
@@ -492,6 +498,9 @@ func (ka *sm2ECDHEKeyAgreement) generateClientKeyExchange(hs *clientHandshakeSta
 	}
 
 	// 使用客户端加密密钥对进行SM2密钥交换
+	if hs.encCert == nil {
+		return nil, nil, errors.New("dtlcp: ECDHE key exchange needs a client encryption certificate")
+	}
 	encPriv := hs.encCert.PrivateKey
 	switch prvKey := encPriv.(type) {
 	case SM2KeyAgreement:
